@@ -56,6 +56,16 @@ def run(rep, ctx, tier):
                 rep.add("R5", "%s:anchor" % key, False, "%s not found (fail closed)" % key, None)
                 continue
             R5.check_row(rep, ctx, "R5", key, b, info["adt"], variants, [T.ROLES[m]["polys"]], MSM)
+    # R17: the per-bound tables that get_shift_power / check_degrees_and_bounds binary-search are sorted where the keys
+    # are built (every search site of the crate outside evaluate_query_set, which C16 owns)
+    from ..rules import sorted as R17
+    eq = [x.id for x in f.bodies.values() if x.kind != "Closure" and x.name == "evaluate_query_set" and not x.self_adt and not x.in_trait]
+    own = set(f.bodies) - f.closure(eq, None)
+    n_sites, n_judged = R17.run(rep, ctx, own, "R17")
+    rep.count("R17 search sites", n_sites)
+    if n_judged < 1:
+        rep.add("R17", "floor", False, "only %d of %d binary-search sites could be traced to the code that builds the table "
+                "(counted 3 of 4; floor 1; fail closed)" % (n_judged, n_sites), None)
     # Sonic trim refuses a bound above the supported degree
     b = f.find1("trim", self_adt=T.SCHEMES["sonic_kzg10"]["adt"], trait=PC)
     if b is None:
@@ -129,6 +139,10 @@ def run(rep, ctx, tier):
                 ok, detail, where, n = R1.component(ctx, a, comp, cut_sponge=True)
                 rep.add("R1", "%s:%s" % (a.key, name), ok, detail, where or a.body.span, nontrivial=n > 0)
             bound_table_rules(rep, ctx, a, db)
+            # every bounded commitment's own shift element enters the equation: none survives a loop only as the last
+            # (or the first) one
+            from ..rules import everyiter as R1D
+            R1D.run_last_value(rep, ctx, a, "R1L")
 
 
 def bound_table_rules(rep, ctx, a, db):
